@@ -142,8 +142,25 @@ func run(j jobT, e envT) (r resT) {
 		}
 	}
 	w := &recWriter{plan: j.Plan}
+	// the slice argument is handed over as a prefix of a longer array: a render that writes into its
+	// arguments (or into their spare capacity) would change what another render sharing them sees
+	const spare = "\x00verif-spare"
+	arena := make([]string, len(e.Xs)+4)
+	copy(arena, e.Xs)
+	for i := len(e.Xs); i < len(arena); i++ {
+		arena[i] = spare
+	}
+	before := append([]string{}, e.Xs...)
+	if e.Xs != nil {
+		e.Xs = arena[:len(e.Xs):len(arena)]
+	}
 	t := templates[j.Name](e)
 	err := t.Render(parent, w)
+	for i, v := range arena {
+		if (i < len(before) && v != before[i]) || (i >= len(before) && v != spare) {
+			r.Panic = fmt.Sprintf("argument-mutated: the render wrote %q into element %d of its []string argument (length %d)", v, i, len(before))
+		}
+	}
 	if err != nil {
 		r.Err = err.Error()
 		if errors.Is(err, errWriter) {
@@ -348,6 +365,11 @@ func evalStr(frag string, e Env) (string, bool) {
 		return e.S0 + e.S1, true
 	case `f2("é", s0)`:
 		return "é" + e.S0, true
+	case `f2("50%off now", s0)`:
+		return "50%off now" + e.S0, true
+	case `f2(s1, d3[n0%3 + 1])`:
+		m := e.N0 % 3
+		return e.S1 + []string{"zero", "one", "two", "three"}[m+1], true
 	case "f2(s0,\n\t\t\t\ts1)":
 		return e.S0 + e.S1, true
 	case "n0":
